@@ -108,11 +108,22 @@ func (ex *Exec) runInit(l *Loaded) *State {
 		}
 	}
 	sort.Strings(paths)
-	for _, p := range paths {
-		fn := l.pkgs[p].Func("init")
-		ex.pushFrame(st, fn, nil, nil, nil)
-		ex.runToEnd(st)
-	}
+	func() {
+		defer func() {
+			if r := recover(); r != nil {
+				if ee, ok := r.(*EngineError); ok {
+					ex.initErr = "package initialisation: " + ee.msg
+					return
+				}
+				panic(r)
+			}
+		}()
+		for _, p := range paths {
+			fn := l.pkgs[p].Func("init")
+			ex.pushFrame(st, fn, nil, nil, nil)
+			ex.runToEnd(st)
+		}
+	}()
 	for _, o := range st.heap {
 		o.shared = true
 	}
@@ -203,6 +214,9 @@ func (ex *Exec) runJob(l *Loaded, tmpl *State, cfg JobConfig) (res *JobResult) {
 			res.Unsupported = fmt.Sprintf("engine panic: %v\n%s", r, debug.Stack())
 		}
 	}()
+	if ex.initErr != "" {
+		panic(engineErr("%s", ex.initErr))
+	}
 	pkg := l.pkgs[cfg.Pkg]
 	if pkg == nil {
 		panic(engineErr("package %s not loaded", cfg.Pkg))
